@@ -13,6 +13,7 @@ mod analysis;
 mod props_static;
 mod props_dynamic;
 mod props_more;
+mod props_c06;
 mod smap;
 mod checks;
 
